@@ -47,8 +47,12 @@ def ex(n):
     if k == 'CXXOperatorCallExpr' and is_comp_call(n): return '(cmp %s %s)' % (ex(n['inner'][2]), ex(n['inner'][3]))
     if k == 'CXXMemberCallExpr':
         nm = callee_name(n); obj = strip(strip(n['inner'][0])['inner'][0]) if strip(n['inner'][0]).get('inner') else None
-        if nm in ('begin', 'cbegin'): return '0'
-        if nm in ('end', 'cend'): return 'len'
+        if nm in ('begin', 'cbegin', 'mbegin'): return '0'
+        if nm in ('end', 'cend', 'mend'): return 'len'
+        if nm == 'lower_bound' and len(n['inner']) == 2: return '(lower_bound cmp l 0 len %s)' % ex(n['inner'][1])   # FlatSet::lower_bound(k)
+        if nm == 'find' and len(n['inner']) == 2: return '(find_gen cmp l %s)' % ex(n['inner'][1])
+        if nm == 'erase' and obj is not None and obj['kind'] == 'MemberExpr' and obj.get('name') == '_sortedVector':
+            return 'VECERASE %s' % ex(n['inner'][1])
         if nm == 'insert' and obj is not None and obj['kind'] == 'MemberExpr' and obj.get('name') == '_sortedVector':
             return 'VECINSERT %s' % ex(n['inner'][1])          # handled at return position
         if nm == 'insert' and obj is not None and obj['kind'] == 'CXXThisExpr': return 'SETINSERT'
@@ -66,13 +70,32 @@ def ex(n):
         if nm == 'forward': return ex(args[0])
         raise Unsupported('call ' + nm)
     if k == 'CXXDefaultArgExpr': return '1'
+    if k in ('CXXConstructExpr', 'CXXTemporaryObjectExpr') and len(n.get('inner', [])) == 2:   # std::pair<iterator, bool>(it, flag)
+        return 'PAIR %s, %s' % (ex(n['inner'][0]), ex(n['inner'][1]))
     raise Unsupported('expr ' + k)
 def is_assert(s):
     s = strip(s); return s['kind'] == 'ConditionalOperator' and any(x.get('kind') == 'DeclRefExpr' and x.get('referencedDecl', {}).get('name') == '__assert_fail' for x in walk(s))
 def ret(e):
     if e.startswith('VECINSERT '): return '(vec_insert l %s v)' % e[len('VECINSERT '):]
     if e == 'SETINSERT': return '(set_insert cmp l v)'
+    if e.startswith('PAIR '): return '(l, %s)' % e[len('PAIR '):]
     return '(l, %s)' % e
+def update_of(s):
+    """x = _sortedVector.insert(it, v)  ->  ('x', vec_insert ...);   _sortedVector.erase(it)  ->  (None, vec_erase ...)"""
+    t = strip(s)
+    if t['kind'] == 'BinaryOperator' and t.get('opcode') == '=' and strip(t['inner'][0])['kind'] == 'DeclRefExpr':
+        e = ex(t['inner'][1])
+        if e.startswith('VECINSERT '):
+            return strip(t['inner'][0])['referencedDecl']['name'], '(vec_insert l %s v)' % e[len('VECINSERT '):]
+        return None
+    if t['kind'] == 'CXXMemberCallExpr':
+        try:
+            e = ex(t)
+        except Unsupported:
+            return None
+        if e.startswith('VECERASE '):
+            return None, '(vec_erase l %s)' % e[len('VECERASE '):]
+    return None
 def block(stmts, k):
     """k: Gallina text for the fallthrough continuation (None = unreachable)"""
     if not stmts:
@@ -84,6 +107,19 @@ def block(stmts, k):
     if kind == 'DeclStmt':
         d = s['inner'][0]; return 'let %s := %s in\n%s' % (d['name'], ex(d['inner'][0]), block(rest, k))
     if kind == 'ReturnStmt': return ret(ex(s['inner'][0]))
+    upd = update_of(s)
+    if upd is not None:
+        var, e = upd
+        return 'let %s := %s in\n%s' % (('\'(l, %s)' % var) if var else 'l', e, block(rest, k))
+    if kind == 'IfStmt' and len(s['inner']) == 2 and rest:
+        body = s['inner'][1]
+        inner = body.get('inner', []) if body['kind'] == 'CompoundStmt' else [body]
+        if len(inner) == 1 and update_of(inner[0]) is not None:
+            var, e = update_of(inner[0])
+            c = ex(s['inner'][0])
+            if var:
+                return 'let \'(l, %s) := (if %s then %s else (l, %s)) in\n%s' % (var, c, e, var, block(rest, k))
+            return 'let l := (if %s then %s else l) in\n%s' % (c, e, block(rest, k))
     if kind == 'IfStmt':
         c = ex(s['inner'][0]); restk = block(rest, k) if (rest or k is not None) else None
         t = block([s['inner'][1]], restk); e = block([s['inner'][2]], restk) if len(s['inner']) > 2 else restk
@@ -110,16 +146,51 @@ def main():
         else:
             try:
                 objs = load(out)
+                SPECS = [
+                    ('insert_hint', 'insert_hint_gen', 'const int &', '(cmp : Z -> Z -> bool) (l : list Z) (hint : Z) (v : Z) : list Z * Z', {}),
+                    ('insert_val', 'insert_val_gen', 'const int &', '(cmp : Z -> Z -> bool) (l : list Z) (v : Z) : list Z * Z * bool', {}),
+                    ('find', 'find_gen', 'const_reference', '(cmp : Z -> Z -> bool) (l : list Z) (k : Z) : Z', {'plain': True}),
+                    ('erase', 'erase_key_gen', 'const_reference', '(cmp : Z -> Z -> bool) (l : list Z) (v : Z) : list Z * Z', {}),
+                ]
+                texts = []
+                # non-template members: only those of the instantiated class FlatSet<int> (the template pattern has unresolved calls)
+                inst_methods = []
                 for o in objs:
                     for n in walk(o):
-                        if n.get('kind') == 'CXXMethodDecl' and n.get('name') == 'insert_hint' and 'const int &' in n.get('type', {}).get('qualType', '') and any(c.get('kind') == 'CompoundStmt' for c in n.get('inner', [])):
-                            body = [c for c in n['inner'] if c['kind'] == 'CompoundStmt'][0]
-                            text = ('Definition insert_hint_gen (cmp : Z -> Z -> bool) (l : list Z) (hint : Z) (v : Z) : list Z * Z :=\n  let len := Z.of_nat (length l) in\n' + block([body], None) + '.')
+                        if n.get('kind') == 'ClassTemplateSpecializationDecl' and n.get('name') == 'FlatSet':
+                            inst_methods += [m for m in n.get('inner', []) if m.get('kind') == 'CXXMethodDecl']
+                for cname, gname, tfilter, sig, opts in SPECS:
+                    found = None
+                    for o in objs:
+                        for n in (inst_methods if tfilter == 'const_reference' else walk(o)):
+                            if n.get('kind') == 'CXXMethodDecl' and n.get('name') == cname and any(c.get('kind') == 'CompoundStmt' for c in n.get('inner', [])):
+                                qt = n.get('type', {}).get('qualType', '')
+                                params = [c for c in n['inner'] if c['kind'] == 'ParmVarDecl']
+                                ptypes = [c.get('type', {}).get('qualType', '') for c in params]
+                                if tfilter == 'const int &' and 'const int &' not in qt:
+                                    continue
+                                if tfilter == 'const_reference' and not (len(params) == 1 and ('const_reference' in ptypes[0] or ptypes[0] == 'const int &')):
+                                    continue
+                                found = n
+                                break
+                        if found:
                             break
-                    if text:
-                        break
-                if text is None:
-                    summary['errors']['insert_hint'] = 'instantiated FlatSet<int>::insert_hint<const int&> not found in the AST'
+                    if found is None:
+                        summary['errors'][cname] = 'instantiated FlatSet<int>::%s not found in the AST' % cname
+                        continue
+                    try:
+                        body = [c for c in found['inner'] if c['kind'] == 'CompoundStmt'][0]
+                        g = block([body], None)
+                        if opts.get('plain'):   # a value, not a (list, value) pair
+                            g = g.replace('(l, ', '(')
+                        texts.append('Definition %s %s :=\n  let len := Z.of_nat (length l) in\n%s.' % (gname, sig, g))
+                        summary['functions'].append(gname)
+                    except Unsupported as e:
+                        summary['errors'][cname] = 'untranslatable: ' + str(e)
+                # definition order: find before erase (erase calls find); insert_val before insert_hint is not needed
+                order = {'find_gen': 0, 'insert_val_gen': 1, 'erase_key_gen': 2, 'insert_hint_gen': 3}
+                texts.sort(key=lambda t: order.get(t.split()[1], 9))
+                text = '\n\n'.join(texts) if texts else None
             except Unsupported as e:
                 summary['errors']['insert_hint'] = 'untranslatable: ' + str(e)
             except Exception as e:  # malformed AST etc.
@@ -133,8 +204,6 @@ def main():
     if old != new:
         with open(path, 'w') as f:
             f.write(new)
-    if text:
-        summary['functions'].append('insert_hint_gen')
     print(json.dumps(summary, indent=1, sort_keys=True))
 
 if __name__ == '__main__':
